@@ -43,7 +43,9 @@ impl Prop for C07 {
             st.max("max_stream_ops_in_one_call", rec.ops);
             if rec.n > 0 {
                 st.max("max_ops_per_input_byte_x1000", rec.ops * 1000 / rec.n);
+                st.max("max_bytes_moved_per_input_byte_x1000", rec.bytes * 1000 / rec.n);
             }
+            st.max("max_bytes_moved_in_one_call", rec.bytes);
             if rec.budget_tripped {
                 out.push(Violation::new(
                     "C07",
